@@ -19,6 +19,7 @@ declare -A REL=(
  [B16-battery-half-up]="C04 C13"
  [B17-unsorted-indent4]="C13 C14 C15"
  [B18-stream-write-in-two-pieces]="C17"
+ [B19-direct-send-supersedes-parked]="C07 C08 C09 C12 C19"
 )
 for b in "${!REL[@]}"; do
   [ -n "$1" ] && [[ "$b" != $1* ]] && continue
